@@ -29,6 +29,8 @@ def mk_fun(av, scalar=False, pos=False):
     vs = aff_vars(forms)
     K = SCALE[0]
     off = OFFSET[0] if (pos and OFFSET[0]) else [0.0] * len(forms)
+    if not vs and pos and INTPOS[0] and isinstance(av, list) and all(float(a["c"] / 4.0 * K + off[i]).is_integer() for i, a in enumerate(forms)):
+        return torch.tensor([int(a["c"] / 4.0 * K + off[i]) for i, a in enumerate(forms)])      # an INTEGER tensor (torch.tensor([1, -2]))
     if not vs:
         vals = [a["c"] / 4.0 * K + off[i] for i, a in enumerate(forms)]
         return vals[0] if (scalar or not isinstance(av, list)) else vals
@@ -77,6 +79,17 @@ def build_scaled(e, k):
         return build(e)
     finally:
         SCALE[0] = 1.0
+
+
+INTPOS = [False]     # hand whole-number positions over as integer tensors
+
+
+def build_intpos(e):
+    INTPOS[0] = True
+    try:
+        return build(e)
+    finally:
+        INTPOS[0] = False
 
 
 FAR = [1000000.0, 2000000.0, -500000.0]
